@@ -44,6 +44,7 @@ func (m *valModel) clone() *valModel {
 }
 
 type valWorld struct {
+	adds int // add messages sent so far (every third spells its operator in upper case)
 	run  *mon.Run
 	e    *L2Env
 	m    *valModel
@@ -91,13 +92,18 @@ func (w *valWorld) addValidator(v ValKey, opIdx, keyIdx int) sim.Result {
 	if opIdx%3 == 2 {
 		moniker = fmt.Sprintf("validator-%d-with-a-moniker-as-long-as-its-operator-likes-nothing-in-the-messages-bounds-it-%d", opIdx, keyIdx)
 	}
-	msg, err := opchildtypes.NewMsgAddValidator(moniker, w.e.L2.Authority, v.Operator.Val(), v.Pub)
+	spelled := v.Operator.Val()
+	w.adds++
+	if w.adds%3 == 0 {
+		spelled = strings.ToUpper(spelled) // the same operator under the upper-case bech32 spelling
+	}
+	msg, err := opchildtypes.NewMsgAddValidator(moniker, w.e.L2.Authority, spelled, v.Pub)
 	if err != nil {
 		panic(err)
 	}
 	res := w.e.L2.Deliver(msg)
 	w.run.Evaluations++
-	w.logf("add(op%d,key%d) -> %s %s", opIdx, keyIdx, res.Class, res.ErrString())
+	w.logf("add(op%d,key%d%s) -> %s %s", opIdx, keyIdx, map[bool]string{true: ",upper-case operator", false: ""}[spelled != v.Operator.Val()], res.Class, res.ErrString())
 	return res
 }
 
@@ -182,7 +188,7 @@ func (w *valWorld) compareSets(where string) {
 		if v.power > 0 {
 			state[v.cons] = v.power
 		}
-		byOp[v.operator] = v
+		byOp[canonOp(v.operator)] = v
 		if prev, dup := consSeen[v.cons]; dup {
 			run.Fail(w.pfx+".index_bijection", w.sig("cons_key_shared"), w.path, "consensus key %s is held by two stored validators %s and %s", v.cons[:8], prev, v.operator)
 		}
@@ -256,7 +262,14 @@ func classifyEngineErr(err error) string {
 func updatesString(ups []abci.ValidatorUpdate) string {
 	var sb strings.Builder
 	for _, u := range ups {
-		fmt.Fprintf(&sb, "%X:%d ", u.PubKey.GetEd25519()[:4], u.Power)
+		kb := u.PubKey.GetEd25519()
+		if kb == nil {
+			kb = u.PubKey.GetSecp256K1()
+		}
+		if len(kb) > 4 {
+			kb = kb[:4]
+		}
+		fmt.Fprintf(&sb, "%X:%d ", kb, u.Power)
 	}
 	return sb.String()
 }
@@ -372,3 +385,12 @@ func (w *valWorld) checkHistory(bonded map[string]int64) {
 }
 
 var _ = mon.NewRand
+
+// canonOp: operators are identified by their address, not by how a record spells it (a genesis file may spell an
+// operator address in upper case; the module's own maps are keyed by the spelling of the record, ours by the account).
+func canonOp(s string) string {
+	if b, err := sdk.ValAddressFromBech32(s); err == nil {
+		return sdk.ValAddress(b).String()
+	}
+	return s
+}
